@@ -68,11 +68,13 @@ static GLOBAL: ShiftAlloc = ShiftAlloc;
 // Payload bytes, identity, hash
 // ---------------------------------------------------------------------------------------------
 
-const S_LIST: [usize; 44] = [
+const S_LIST: [usize; 48] = [
     0, 1, 2, 3, 4, 7, 8, 9, 15, 16, 17, 24, 31, 32, 33, 48, 63, 64, 65, 100, 127, 128, 129, 255, 256, 257, 511, 512,
     1000, 1023, 1024, 1025, 2047, 2048, 4095, 4096,
     // just below a power of two: req + 32 (the chained-queue item) crosses the next growth boundary
     2016, 2024, 2032, 2040, 4064, 4072, 4080, 4088,
+    // 2^k - align for the large alignments: the alignment slack of `req` decides whether the next buffer size suffices
+    1920, 1984, 3968, 4032,
 ];
 const A_LIST: [usize; 8] = [1, 2, 4, 8, 16, 32, 64, 128];
 
@@ -215,7 +217,8 @@ pub fn dispatch<V: Visit>(s: usize, a: usize, k: u8, v: V) -> Option<V::R> {
     class_table!(s, a, k, v;
         [0 1 2 3 4 7 8 9 15 16 17 24 31 32 33 48 63 64 65 100 127 128 129 255 256 257 511 512
          1000 1023 1024 1025 2047 2048 4095 4096
-         2016 2024 2032 2040 4064 4072 4080 4088]
+         2016 2024 2032 2040 4064 4072 4080 4088
+         1920 1984 3968 4032]
         [1 2 4 8 16 32 64 128]);
     small_table!(s, a, k, v;
         (0 1) (0 2) (0 4) (0 8) (0 16) (0 32) (0 64) (0 128) (1 1) (2 1) (3 1) (1 2) (2 2));
